@@ -9,6 +9,7 @@ GetEntryAndProof behaviours (C06 replay) cover the in-tree histories.
 import json
 import os
 
+from props import ctfe_common
 from vlib import Infra
 
 LEVEL = "model_checking"
@@ -40,3 +41,9 @@ def run(ctx, replay=None):
     path = ctx.write_ndjson("cases.ndjson", cases)
     # MaxWord of the configuration in use (2^63-1-MaxWord is divisible by lcm of the batch sizes = 3000 in both)
     ctx.go_test("cctfe", run="TestRange$", env={"VERIF_CASES": path, "VERIF_MAXWORD": ctx.pick(7807, 22807)}, timeout=3000)
+    if replay:
+        return
+    # "all stored entries": what a served entry decodes to, for every shape of submission and every chain storage mode
+    ctfe_common.entry_shapes(ctx, "C07")
+    # stored bytes stay served when issuance chains live outside the backend, across storage faults and cold caches
+    ctfe_common.external_storage(ctx)
